@@ -47,7 +47,9 @@ fn variants(ctx: &Context, def: &UnionDefinition) -> Vec<Ident> {
 }
 
 fn unknown(ctx: &Context, def: &UnionDefinition) -> TokenStream {
-    if variants(ctx, def).iter().any(|f| f == "Unknown") {
+    if variants(ctx, def).iter().any(|f| f == "Unknown")
+        || ctx.type_name(def.type_name().name()) == "Unknown"
+    {
         quote!(Unknown_)
     } else {
         quote!(Unknown)
